@@ -96,3 +96,51 @@ func FeesOf(rs []*types.Receipt) *big.Int {
 	}
 	return s
 }
+
+// SetupFeeDelegationScene connects two blocks on the node: user 0 deploys a contract; then user 0 makes it accept fee
+// delegation (the stub VM's "_fd" switch) and user 1 funds it with `fund` aer — typically about one fee, so that
+// what the contract owns lies between the base fee of a call and the fee of an expensive one. Returns the tip it reached; with an error the scene is incomplete (the caller carries on from that tip without it).
+func (n *Node) SetupFeeDelegationScene(w *World, prev *types.Block, fund *big.Int) (*types.Block, error) {
+	n.SwitchTo()
+	step := func(prev *types.Block, specs []*TxSpec) (*types.Block, error) {
+		cid := n.ChainIDHashFor(prev)
+		var txs []*types.Tx
+		for _, s := range specs {
+			txs = append(txs, s.Build(cid))
+		}
+		p, err := n.Produce(prev, prev.GetHeader().GetTimestamp()+1000000000, txs, nil)
+		if err != nil {
+			return nil, err
+		}
+		if len(p.Included) != len(txs) {
+			return nil, fmt.Errorf("scene: %d of %d transactions were not included", len(txs)-len(p.Included), len(txs))
+		}
+		if err := n.AddOwn(p); err != nil {
+			return nil, err
+		}
+		w.Learn(p, specs)
+		return p.Block, nil
+	}
+	d, err := n.DumpAt(prev.GetHeader().GetBlocksRootHash())
+	if err != nil {
+		return nil, err
+	}
+	n0, n1 := d.Nonce(KeyN(0).Addr), d.Nonce(KeyN(1).Addr)
+	before := len(w.Contracts)
+	b1, err := step(prev, []*TxSpec{{Kind: "deploy", From: 0, Nonce: n0 + 1, Type: types.TxType_DEPLOY, Payload: []byte("stub-code-fd"), Amount: new(big.Int)}})
+	if err != nil {
+		return prev, err // nothing was connected (the history so far may not allow the scene: no funds, deployment restricted)
+	}
+	if len(w.Contracts) != before+1 {
+		return b1, fmt.Errorf("scene: the deployment did not create a contract")
+	}
+	ctr := w.Contracts[len(w.Contracts)-1]
+	b2, err := step(b1, []*TxSpec{
+		{Kind: "call", From: 0, Nonce: n0 + 2, Type: types.TxType_CALL, Recipient: ctr, Amount: new(big.Int), Payload: StubProgram([]string{"set", "_fd", "1"})},
+		{Kind: "transfer-to-contract", From: 1, Nonce: n1 + 1, Type: types.TxType_TRANSFER, Recipient: ctr, Amount: fund},
+	})
+	if err != nil {
+		return b1, err
+	}
+	return b2, nil
+}
